@@ -282,9 +282,12 @@ def buffer_job(which, args, seed):
 
         fam = Family(f"MultiTask[{cls}]" + ("[sparse task ids]" if tm else ""), lambda: c02.MTAdapter(cls, prof, n, k, tm), c02.mt_step, c02.mt_project, lambda ad: ad.mt, set_mt, lambda o, ad, rng: _ring_sample(o, rng))
     elif which == "prio":
-        kind, k, n, m, b, strat = args
-        g, G = _graph("RingPrio", dict(K=k, N=n, MaxAdds=m, PrioVals={1, 3}, MaxBatch=b, STRAT=strat), view="View")
-        fam = Family(f"{kind}{'[multi-task]' if k > 1 else ''}", lambda: c08.PrioAdapter(kind, n, k), c08.step, c08.project,
+        kind, k, n, m, b, strat = args[:6]
+        # unit 3: the real priorities are thirds (model values 1, 2, 4 = 1/3, 2/3, 4/3; initial maximum 3 = 1.0), i.e.
+        # doubles that no narrower floating-point type holds - a snapshot must keep them bit for bit
+        unit = args[6] if len(args) > 6 else 1
+        g, G = _graph("RingPrio", dict(K=k, N=n, MaxAdds=m, PrioVals={1, 3} if unit == 1 else {1, 2, 4}, MaxBatch=b, STRAT=strat, **c08._default(unit)), view="View")
+        fam = Family(f"{kind}{'[multi-task]' if k > 1 else ''}{'[priorities in thirds]' if unit == 3 else ''}", lambda: c08.PrioAdapter(kind, n, k, unit), c08.step, c08.project,
                      lambda ad: ad.obj, lambda ad, x: setattr(ad, "obj", x), lambda o, ad, rng: _ring_sample(o, rng))
     elif which == "subtraj":
         n, h, m, prio, b = args
@@ -519,6 +522,8 @@ def run(rep):
     jobs.append(("prio", ("LAP", 1, 2, 4, 1, False), rep.seed))
     jobs.append(("prio", ("PER", 1, 2, 4, 2, True), rep.seed))
     jobs.append(("prio", ("LAP", 2, 2, 3, 1, False), rep.seed))
+    jobs.append(("prio", ("LAP", 1, 2, 4, 1, False, 3), rep.seed))
+    jobs.append(("prio", ("PER", 1, 2, 3, 2, True, 3), rep.seed))
     jobs.append(("subtraj", (3, 1, 5, False, 1), rep.seed))
     jobs.append(("subtraj", (4, 2, 6, False, 1), rep.seed))
     jobs.append(("subtraj", (3, 1, 3, True, 1), rep.seed))
